@@ -76,7 +76,12 @@ def run(ctx):
         A = np.array([[rng.randint(-16, 16) / 4 for _ in range(n)] for _ in range(m)])
         b = np.array([rng.randint(-8, 8) / 2 for _ in range(m)])
         x = np.array([rng.uniform(-2, 2) for _ in range(n)])
+        if rng.random() < 0.3:
+            # coordinates of small magnitude (the default step of scipy is relative to max(1, |x_i|), so accuracy must not suffer)
+            x = np.array([rng.choice([-1, 1]) * 10.0 ** rng.uniform(-7, -2) if rng.random() < 0.6 else v for v in x])
         step = rng.choice([None, None, 1e-6, 1e-5])
+        if np.any(np.abs(x) < 1e-2):
+            step = None         # a user-given relative step is relative to |x_i| (scipy's documented meaning): tiny x_i then means tiny steps
         kind = rng.choice(['affine', 'affine', 'nonlinear'])
         use_bounds = rng.random() < 0.5 and meth != 'complex'
         lo, hi = x - np.array([rng.choice([0.0, 0.5, 1.0]) for _ in range(n)]), x + np.array([rng.choice([0.0, 0.5, 1.0]) for _ in range(n)])
